@@ -24,9 +24,12 @@ THEOREM_MODULE = "NemoVerif.Theorems.C06"
 RULE = ("program: main + 1..5 flows in a call DAG (each flow either only activated or only started/awaited), bodies from "
         "match / start action / await action / start|await|activate flow / and-or groups / when-or when-else / abort / "
         "StopFlow / FinishFlow / deactivate / early-restart label, nesting depth <= 4, 15 % with a conflict cluster (2-3 flows matching the same event and then "
-        "starting an action), 8 % of the programs with >= 2 activated flows mutually activating; history: 3..10 (quick) / up to 30 "
+        "starting an action), 8 % of the programs with >= 2 activated flows mutually activating, 35 % with a dying-sender race cluster "
+        "(two flows waiting for the same event: one ends the other's parent / the other itself - awaited by reference, or-group, when, StopFlow, FinishFlow, "
+        "failing - while the other queues activate / start / await / an action; twin activators ending with the activated flow; hand-over between two activators), 25 % of the programs with an activated flow give one of them a parameter (activated with two values, positionally or by name); history: 3..10 (quick) / up to 30 "
         "(thorough) items drawn from plain events and action Started/Finished events for already started actions "
-        "(late, duplicated, after Stop, or never). non-trivial = at least one recorded outermost abort/finish call whose "
+        "(late, duplicated, after Stop, or never), race programs in 60 % with the race event followed later by the event that ends the holder of the activation, "
+        "20 % of the histories with clock ticks > 5 s (clean-up of ended instances runs inside the history). non-trivial = at least one recorded outermost abort/finish call whose "
         "instance had a child or an action; distinct = distinct (program, history) JSON.")
 TRUSTED_BASE = [
     "record/replay harness harness/props/C06.py (monkeypatched wrappers, abstract-state snapshot, uid renaming) + Lean driver Drive/C06.lean",
@@ -35,10 +38,10 @@ TRUSTED_BASE = [
 ]
 ASSUMPTIONS = [
     "heads abstracted to their number; event-matching index not modelled (C09)",
-    "flows without @meta tags (no *_LOG events); action names end in 'Action' and contain neither 'Start' nor 'Stop'",
+    "at most one activated flow per program has a parameter (one positional string argument); flows without @meta tags (no *_LOG events); action names end in 'Action' and contain neither 'Start' nor 'Stop'",
     "each action instance is started by exactly one `send $ref.Start()` element (programs built from start/await/activate/when/groups)",
     "external events are plain events or <Action>Started/<Action>Finished events for action uids the interpreter emitted",
-    "no clean-up of old instances during a case (histories run within the 5 s window)",
+    "clean-up of old instances runs only where a history has a clock tick (20 % of the histories); the stretch of a trace across a clean-up is not replayed by the operation machine",
 ]
 
 EVENTS = ["E0", "E1", "E2"]
@@ -150,7 +153,143 @@ def gen_program(rng):
         if not any(st == ["activate", x] or st == ["activate", y] for st in _walk(body)):
             body.insert(0, ["activate", x])
         prog["cycle"] = [x, y]
+    if rng.random() < 0.35:
+        _g_race(rng, prog)
+    _g_params(rng, prog)
     return prog
+
+
+def _g_params(rng, prog):
+    """25 % of the programs with an activated flow: one activated flow gets a parameter `$p`; every `activate` of it passes "u" (70 %)
+    or "v" - each value has its own reference instance (`_get_reference_activated_flow_instance` compares the parameters),
+    activators of different values must not share an instance, activators of the same value must."""
+    kinds = prog["kinds"]
+    cand = [n for n in prog["flows"] if kinds.get(n) == "act" and n not in prog.get("cycle", [])]
+    if not cand or rng.random() >= 0.25:
+        return
+    a = rng.choice(cand)
+    n = 0
+    for body in prog["flows"].values():
+        for st in _walk(body):
+            if st[0] == "activate" and st[1] == a and len(st) == 2:
+                st.append("u" if rng.random() < 0.7 else "v")
+                st.append(rng.choice(["pos", "pos", "named"]))   # `activate a "u"` / `activate a(p="u")`: the same reference instance
+                n += 1
+    if n:
+        prog["params"] = [a]
+
+
+def _g_race(rng, prog):
+    """dying-sender race: two flows wait for the SAME event; one of them (the killer) thereby ends the other one's
+    parent (it finishes while the parent awaits it / an or-group or `when` scope closes / it stops the parent
+    explicitly), the other one (the sender) executes a statement that only QUEUES an internal event at that moment
+    (`activate` of a flow that may already be activated by a living flow, `start` / `await` of a flow, start of an
+    action).  Depending on the order in which the interpreter advances the two heads the sender is dead when its
+    queued event is processed.  Also: two activators of the same flow that end on the event on which the activated
+    flow itself ends (restart queued while the last activator disappears)."""
+    flows, kinds = prog["flows"], prog["kinds"]
+    names = [n for n in flows if n != "main"]
+    # host: main or an existing started flow starts the wrapper; the flows the sender refers to come later in the call DAG
+    host = rng.choice(["main"] + [n for n in names if kinds[n] == "sub" and rng.random() < 0.5])
+    later = names if host == "main" else names[names.index(host) + 1:]
+    subs = [x for x in later if kinds[x] == "sub"]
+    actv = [x for x in later if kinds[x] == "act"]
+    e = rng.choice(EVENTS)
+    tag = f"r{len(names)}"
+    rk, rs, rt = tag + "k", tag + "s", tag + "t"
+    r = rng.random()
+    new = {}
+    if r < 0.55 or not subs:
+        if actv and rng.random() < 0.7:
+            a = rng.choice(actv)
+        else:
+            a = tag + "a"
+            new[a] = [rng.choice([["match", rng.choice(EVENTS)], ["start_act", rng.choice(SCRIPTS)]]), ["match", rng.choice(EVENTS)]]
+            kinds[a] = "act"
+        x = ["activate", a]
+    elif r < 0.85:
+        a = None
+        x = [rng.choice(["start", "await"]), rng.choice(subs)]
+    else:
+        a = None
+        x = ["start_act", rng.choice(SCRIPTS)]
+    form = rng.choice(["ref", "ref", "ref", "ref", "or", "await", "when", "stop", "stop", "fin", "fin", "twin", "handover", "handover", "handover"])
+    if form in ("twin", "handover") and a is None:
+        form = "ref"
+    tail = [["match", rng.choice(EVENTS + ["Never"])]]
+    if rng.random() < 0.3:
+        tail = [["start_act", rng.choice(SCRIPTS)]] + tail
+    killer = [["match", e]]
+    sender = [["match", e], x] + tail
+    if form == "twin":
+        # both activate `a` and end on `e`; `a` itself ends on `e` too
+        killer = [["activate", a], ["match", e]]
+        sender = [["activate", a], ["match", e]]
+        body = new.get(a, flows.get(a))
+        body.append(["match", e])
+        tie = [["start", rk], ["start", rs]] if rng.random() < 0.5 else [["start", rs], ["start", rk]]
+        tie.append(["match", rng.choice(EVENTS + ["Never"])])
+    elif form == "handover":
+        # two activators of `a`; the one that started it (its parent) ends first, the other one holds it on and ends later —
+        # with a clock tick in between the ended parent is old enough to be cleaned up while `a` still points to it
+        end2 = rng.choice([v for v in EVENTS if v != e])
+        killer = [["activate", a], ["match", e]]
+        sender = [["activate", a], ["match", end2]]
+        tie = [["start", rk], ["start", rs], ["match", "Never"]]
+    elif form == "ref":
+        first = [["start_as", rk, "k"], ["start", rs]]
+        if rng.random() < 0.25:
+            first.reverse()
+        if rng.random() < 0.25:
+            killer = [["match", e], ["abort"]]   # the awaited flow FAILS: the awaiting parent fails with it
+        tie = first + [["match_fin", "k"]]
+    elif form == "or":
+        pair = [["flow", rk], ["flow", rs]]
+        if rng.random() < 0.4:
+            pair.reverse()
+        tie = [["await_group", "or"] + pair]
+    elif form == "await":
+        tie = [["start", rs], ["await", rk]]
+    elif form == "when":
+        cs = [[["flow", rk], [["match", rng.choice(EVENTS)]]], [["flow", rs], [["match", rng.choice(EVENTS)]]]]
+        if rng.random() < 0.4:
+            cs.reverse()
+        tie = [["when", cs, None]]
+    else:  # "stop": the killer stops the sender's parent explicitly
+        # (the parent, or the sender itself; stopped, or FINISHED from outside)
+        verb, tgt = (rng.choice(["stopflow", "finishflow"]), rng.choice([rt, rs])) if form == "stop" else ("finishflow", rs)
+        killer = [["match", e], [verb, tgt], ["match", "Never"]]
+        tie = [["start", rs], ["match", "Never"]]
+    new[rk], new[rs] = killer, sender
+    kinds[rk] = kinds[rs] = kinds[rt] = "sub"
+    if rng.random() < 0.3 and form not in ("stop", "fin", "handover"):
+        tie = tie + [["match", rng.choice(EVENTS)]]
+    new[rt] = tie
+    # a living flow usually holds the activation already
+    ins = [["start", rt]]
+    if form in ("stop", "fin"):
+        ins = [["start", rk], ["start", rt]] if rng.random() < 0.6 else [["start", rt], ["start", rk]]
+    end = None
+    if form == "handover":
+        end = end2
+    elif a is not None and rng.random() < 0.9:
+        if rng.random() < 0.6:
+            # a flow of its own holds the activation and ends on another event: the genuine (last) activator
+            end = rng.choice([v for v in EVENTS if v != e])
+            rh = tag + "h"
+            new[rh] = [["activate", a], ["match", end]]
+            kinds[rh] = "sub"
+            flows["main"].insert(0, ["start", rh])
+        else:
+            flows[rng.choice(["main", host])].insert(0, ["activate", a])
+    hb = flows[host]
+    pos = rng.randrange(0, min(2, len(hb)) + 1)
+    hb[pos:pos] = ins
+    # the new flows go BEFORE main (rendering order is irrelevant to the interpreter, `main` stays last for readability)
+    main = flows.pop("main")
+    flows.update(new)
+    flows["main"] = main
+    prog["race"] = {"form": form, "event": e, "x": x, "end": end}
 
 
 def _used_events(prog):
@@ -182,6 +321,20 @@ def gen_history(rng, tier, prog=None):
             h.append({"act": "Finished", "k": rng.randrange(0, 6), "pick": rng.choice(["any", "live", "stopped"])})
         else:
             h.append({"act": "Started", "k": rng.randrange(0, 6), "pick": rng.choice(["any", "live", "stopped"])})
+    if rng.random() < 0.2:
+        # let the interpreter's clock pass the 5 s after which ended instances are cleaned up (once or twice per history)
+        for _ in range(rng.choice([1, 1, 2])):
+            h.insert(rng.randrange(1, len(h) + 1), {"tick": rng.choice([6, 6, 20])})
+    race = (prog or {}).get("race")
+    if race and rng.random() < 0.6:
+        # the race event, later the event that ends the flow holding the activation (if there is one), then some more
+        i = rng.randrange(0, len(h) + 1)
+        h.insert(i, {"ev": race["event"]})
+        j = rng.randrange(i + 1, len(h) + 1)
+        h.insert(j, {"ev": race.get("end") or rng.choice(EVENTS)})
+        if rng.random() < (0.8 if race["form"] == "handover" else 0.25):
+            h.insert(rng.randrange(i + 1, j + 1), {"tick": rng.choice([6, 20])})   # the clean-up runs when the next event arrives
+        h.append({"ev": rng.choice(used) if used else rng.choice(EVENTS)})
     return h
 
 
@@ -214,6 +367,8 @@ def _render(stmts, ind, out):
             out.append(f'{p}start UtteranceBotAction(script="{st[1]}")')
         elif k == "await_act":
             out.append(f'{p}await UtteranceBotAction(script="{st[1]}")')
+        elif k == "activate" and len(st) > 2:
+            out.append(f'{p}activate {st[1]}(p="{st[2]}")' if st[3:] == ["named"] else f'{p}activate {st[1]} "{st[2]}"')
         elif k in ("start", "await", "activate", "deactivate"):
             out.append(f"{p}{k} {st[1]}")
         elif k == "match_group":
@@ -237,6 +392,10 @@ def _render(stmts, ind, out):
             out.append(f"{p}abort")
         elif k == "restart_label":
             out.append(f"{p}start_new_flow_instance:")
+        elif k == "start_as":
+            out.append(f"{p}start {st[1]} as ${st[2]}")
+        elif k == "match_fin":
+            out.append(f"{p}match ${st[1]}.Finished()")
         else:
             raise ValueError(k)
 
@@ -244,7 +403,7 @@ def _render(stmts, ind, out):
 def render_program(prog):
     out = []
     for nm, body in prog["flows"].items():
-        out.append(f"flow {nm}")
+        out.append(f"flow {nm} $p" if nm in prog.get("params", []) else f"flow {nm}")
         _render(body, 1, out)
         out.append("")
     return "\n".join(out)
@@ -260,6 +419,8 @@ class _RecList(list):
     """records are numbered in the order of their START so that consecutive ones can be paired"""
     def append(self, rec):
         rec.setdefault("seq", len(self))
+        if REC is not None:
+            rec.setdefault("step", REC.step)
         list.append(self, rec)
 
 
@@ -271,6 +432,8 @@ class _Rec:
         self.end_pending = None  # head reached end of flow: waiting for the decision
         self.ends = []
         self.guard = 0
+        self.activations = []   # executed `activate` statements: {"step", "src", "fid"}
+        self.step = 0
 
 
 def _canon(x):
@@ -431,6 +594,20 @@ def _install():
         return o_pushleft(state, event)
 
     sm._push_left_internal_event = w_pushleft
+    o_push = sm._push_internal_event
+
+    def w_push(state, event):
+        # history of executed `activate` statements (the `send StartFlow(activated=True)` element of `slide`): who
+        # activated which flow, recorded when the statement is EXECUTED, independent of what is later done with it
+        R = REC
+        if R is not None and getattr(event, "name", None) == "StartFlow":
+            a = event.arguments
+            src = a.get("source_flow_instance_uid")
+            if a.get("activated", None) and src in state.flow_states and state.flow_states[src].flow_id != a.get("flow_id"):
+                R.activations.append({"step": R.step, "src": src, "fid": a.get("flow_id"), "arg": a.get("$0", a.get("p"))})
+        return o_push(state, event)
+
+    sm._push_internal_event = w_push
 
     def w_slide(state, flow_state, flow_config, head):
         R = REC
@@ -554,7 +731,7 @@ def worker_init():
 
 def _flows_obs(state):
     return [{"uid": u, "fid": f.flow_id, "status": f.status.name, "parent": f.parent_uid, "activated": int(f.activated),
-             "children": list(f.child_flow_uids), "actions": list(f.action_uids)} for u, f in state.flow_states.items()]
+             "children": list(f.child_flow_uids), "actions": list(f.action_uids), "arg": f.arguments.get("p")} for u, f in state.flow_states.items()]
 
 
 def run_impl(case):
@@ -574,6 +751,19 @@ def run_impl(case):
         return obs
     rnd = random.Random(case.get("seed", 0))
     o_choice = sm.random.choice
+    # the interpreter's clock (`datetime.now()` in statemachine.py / flows.py): `{"tick": n}` items let n seconds pass, so
+    # that `_clean_up_state` (instances that ended more than 5 s ago) runs INSIDE a history
+    import datetime as _dt
+    from nemoguardrails.colang.v2_x.runtime import flows as _fl
+
+    class _Clock(_dt.datetime):
+        off = _dt.timedelta(0)
+
+        @classmethod
+        def now(cls, tz=None):
+            return _dt.datetime.now(tz) + cls.off
+
+    o_dt_sm, o_dt_fl = sm.datetime, _fl.datetime
     REC = R = _Rec()
     started, stopped, finished_rx = [], set(), set()   # action uids in order of their Start event
 
@@ -587,6 +777,7 @@ def run_impl(case):
 
     def step(ev, label):
         R.guard = 0
+        R.step = len(obs["steps"])
         st_obs = {"in": label}
         try:
             with contextlib.redirect_stdout(io.StringIO()):
@@ -615,6 +806,8 @@ def run_impl(case):
 
     try:
         sm.random.choice = lambda seq: seq[rnd.randrange(len(seq))]
+        if any("tick" in h for h in case["hist"]):
+            sm.datetime = _fl.datetime = _Clock
         with contextlib.redirect_stdout(io.StringIO()):
             st = State(flow_states=[], flow_configs=cfg)
             sm.initialize_state(st)
@@ -624,6 +817,11 @@ def run_impl(case):
                 break
             if "ev" in h:
                 bad = step({"type": h["ev"]}, h)
+                continue
+            if "tick" in h:
+                _Clock.off += _dt.timedelta(seconds=h["tick"])
+                obs["steps"].append({"in": h, "skipped": True})
+                obs["ticked"] = True
                 continue
             if "auto" in h:
                 waited = sorted(n for n, hs in st.event_matching_heads.items() if n in EVENTS and hs)
@@ -651,9 +849,11 @@ def run_impl(case):
         obs["init_exc"] = type(e).__name__ + ":" + str(e)[:200]
     finally:
         sm.random.choice = o_choice
+        sm.datetime, _fl.datetime = o_dt_sm, o_dt_fl
         REC = None
     obs["records"] = R.records
     obs["ends"] = R.ends
+    obs["activations"] = R.activations
     return obs
 
 
@@ -669,8 +869,10 @@ _STATUS_PATH = {("WAITING", "STARTING"): ["STARTING"], ("WAITING", "STARTED"): [
                 ("WAITING", "STOPPING"): ["STARTING", "STOPPING"]}
 
 
-def _gap_request(prev, nxt):
-    """prev / nxt: {"flows": [...], "actions": [...]} snapshots. Returns (request, expected, problem)."""
+def _gap_request(prev, nxt, cleanup_ok=False):
+    """prev / nxt: {"flows": [...], "actions": [...]} snapshots. Returns (request, expected, problem).
+    cleanup_ok: the two calls belong to different steps (`_clean_up_state` runs at the start of every step; it removes instances
+    after a clock tick - or, on a very slow machine, when a case takes more than 5 s of real time)."""
     pf = {f["uid"]: f for f in prev["flows"]}
     nf = {f["uid"]: f for f in nxt["flows"]}
     pa = {a["uid"]: a for a in prev["actions"]}
@@ -682,7 +884,9 @@ def _gap_request(prev, nxt):
     ops = []
     newflows, newactions = [], []
     if any(u not in nf for u in pf):
-        return None, None, "an instance disappeared between two calls (clean-up is assumed not to run inside a case)"
+        if cleanup_ok:
+            return None, None, None   # clean-up is not an operation of the machine: the stretch is not replayed
+        return None, None, "an instance disappeared between two calls of one step (clean-up only runs at the start of a step)"
     # new instances
     for f in nxt["flows"]:
         if f["uid"] not in pf:
@@ -753,7 +957,8 @@ def _gap_items(obs):
         if a.get("post") is None or a.get("exc") or b.get("seq") != a.get("seq", -1) + 1:
             continue
         items.append(_gap_request({"flows": a["post"]["flows"], "actions": a["post"]["actions"]},
-                                  {"flows": b["pre"]["flows"], "actions": b["pre"]["actions"]}))
+                                  {"flows": b["pre"]["flows"], "actions": b["pre"]["actions"]},
+                                  cleanup_ok=a.get("step") != b.get("step")))
     return items
 
 
@@ -827,6 +1032,9 @@ def model_requests(case, obs):
     return reqs
 
 
+_ACT_MSG = ("real state violates the proved bound activation_count_is_live_activators_partial: the activation counter of a "
+            "reference instance exceeds the number of child-list entries held by live flows")
+
 _EXC = {"KeyError": "KeyError", "ValueError": "ValueError", "ColangRuntimeError": "ColangRuntimeError", "RecursionError": "fuel"}
 
 
@@ -850,6 +1058,8 @@ def _cmp_record(rec, m):
         if d:
             return d
     st, fu, au, fid, sc = _encode_state(rec["pre"])
+    if rec["op"] == "startflow" and m.get("act_pre") is False:
+        return _ACT_MSG + f" (state before the StartFlow of {rec['info']['fid']} is processed)"
     if rec["op"] == "startflow" and late_starts({"records": [rec]}):
         g = m.get("start")
         return None if g is None or g.get("r") != "ignored" else f"startflow {rec['info']['fid']}: implementation started/re-activated a flow for an ended sender, model {g}"
@@ -950,6 +1160,12 @@ def compare(case, obs, mouts):
         i += 1
         if m.get("res") != "ok":
             return f"operation replay failed: {m}"
+        # theorem activation_count_is_live_activators_partial: hypothesis (every operation admissible) and conclusion
+        # (`actCountB`: counter of a reference instance <= child-list entries held by live instances) on the real trace
+        if m.get("adm") is False:
+            return f"trace leaves the admissible operations of activation_count_is_live_activators_partial: ops {req['ops']}"
+        if m.get("act_pre") is False or m.get("act_post") is False:
+            return _ACT_MSG
         got_a = sorted(m["actions"], key=lambda x: x["uid"])
         if m["flows"] != want[0] or got_a != want[1]:
             for w, g in zip(want[0], m["flows"]):
@@ -962,6 +1178,7 @@ def compare(case, obs, mouts):
 
 # ============================================================================= oracle (property statement)
 
+_ANY = object()
 _LISTENING = ("WAITING", "STARTING", "STARTED")
 _RUNNING = ("STARTING", "STARTED")
 _DONE = ("FINISHED", "STOPPED")
@@ -998,6 +1215,7 @@ def oracle(case, obs):
     if "init_exc" in obs:
         return "exception outside run_to_completion: " + obs["init_exc"]
     kinds, targeted, early = _prog_info(case)
+    params = set(case.get("prog", case).get("params", []))
     starts, stops = {}, {}
     finished_rx = set()
     # instances that were observed STARTED at any observation point (step ends and recorded calls)
@@ -1058,9 +1276,9 @@ def oracle(case, obs):
         flows = {f["uid"]: f for f in step["flows"]}
         listening = [f for f in step["flows"] if f["status"] in _LISTENING]
 
-        def activators(fid):
+        def activators(fid, arg=_ANY):
             return [q for q in step["flows"] if q["status"] in _RUNNING and q["fid"] != fid
-                    and any(c in flows and flows[c]["fid"] == fid for c in q["children"])]
+                    and any(c in flows and flows[c]["fid"] == fid and (arg is _ANY or flows[c].get("arg") == arg) for c in q["children"])]
 
         # O2: when an instance has finished/failed, everything it started (transitively) has stopped
         for c in listening:
@@ -1068,7 +1286,8 @@ def oracle(case, obs):
             while cur["parent"] is not None and cur["parent"] in flows and cur["parent"] not in seen:
                 seen.add(cur["parent"])
                 cur = flows[cur["parent"]]
-                if cur["status"] in _DONE:
+                # the main flow never becomes FINISHED: when it ends it is reset to WAITING (restarted)
+                if cur["status"] in _DONE or (cur["fid"] == "main" and cur["status"] == "WAITING"):
                     excused = any(kinds.get(x["fid"]) == "act" and activators(x["fid"]) for x in chain)
                     if not excused:
                         return (f"step {si}: instance {c['uid']} ({c['status']}) is still running although its ancestor {cur['uid']} "
@@ -1081,26 +1300,48 @@ def oracle(case, obs):
             for a in q["actions"]:
                 held.setdefault(a, []).append(q["uid"])
         for p in step["flows"]:
-            if p["status"] in _DONE:
+            if p["status"] in _DONE or (p["fid"] == "main" and p["status"] == "WAITING"):
                 for a in p["actions"]:
                     if starts.get(a) and a not in finished_rx and a not in held and not stops.get(a):
                         return f"step {si}: action {a} started by {p['uid']} ({p['status']}) is unfinished, not shared with a running flow, and got no Stop"
         # O4: activated flows
+        keys = []
         for fid, k in kinds.items():
             if k != "act" or fid in targeted:
                 continue
-            inst = [f for f in listening if f["fid"] == fid]
-            acts = activators(fid)
+            if fid in params:
+                # a flow with a parameter has one reference instance per value that was ever passed
+                vals = {a.get("arg") for a in obs.get("activations", []) if a["fid"] == fid} | {f.get("arg") for f in step["flows"] if f["fid"] == fid}
+                keys += [(fid, v) for v in sorted(vals, key=str)]
+            else:
+                keys.append((fid, _ANY))
+        for fid, arg in keys:
+            label = fid if arg is _ANY else f'{fid} "{arg}"'
+            inst = [f for f in listening if f["fid"] == fid and (arg is _ANY or f.get("arg") == arg)]
+            acts = activators(fid, arg)
             if acts and not inst:
                 # an instance that FAILS before it was ever started is deliberately not restarted (it would loop forever)
-                allinst = [f for f in step["flows"] if f["fid"] == fid]
+                allinst = [f for f in step["flows"] if f["fid"] == fid and (arg is _ANY or f.get("arg") == arg)]
                 if allinst and allinst[-1]["status"] == "STOPPED" and allinst[-1]["uid"] not in started_seen:
                     continue
-                return f"step {si}: activated flow {fid} has a running activator ({acts[0]['uid']}) but no running instance"
+                return f"step {si}: activated flow {label} has a running activator ({acts[0]['uid']}) but no running instance"
             if not acts and inst:
-                return f"step {si}: activated flow {fid} is still running ({inst[0]['uid']}) although no running flow activates it"
+                return f"step {si}: activated flow {label} is still running ({inst[0]['uid']}) although no running flow activates it"
             if len(inst) > 1 and fid not in early:
-                return f"step {si}: activated flow {fid} has {len(inst)} running instances (restarted more than once): " + ", ".join(x["uid"] for x in inst)
+                return f"step {si}: activated flow {label} has {len(inst)} running instances (restarted more than once): " + ", ".join(x["uid"] for x in inst)
+            # O6: the same clause with the activators taken from the HISTORY of executed `activate` statements (who executed
+            # `activate fid`, and is that instance still running) instead of from the interpreter's own book-keeping
+            # (`child_flow_uids` / `activated`): an activated flow runs only while a flow that activated it is alive
+            if "activations" in obs:
+                alive = sorted({a["src"] for a in obs["activations"] if a["fid"] == fid and a["step"] <= si
+                                and (arg is _ANY or a.get("arg") == arg) and flows.get(a["src"], {}).get("status") in _RUNNING})
+                if inst and not alive:
+                    return (f"step {si}: activated flow {label} is still running ({inst[0]['uid']}) although every flow that executed "
+                            f"`activate {label}` has ended")
+                if alive and not inst:
+                    allinst = [f for f in step["flows"] if f["fid"] == fid and (arg is _ANY or f.get("arg") == arg)]
+                    if not (allinst and allinst[-1]["status"] == "STOPPED" and allinst[-1]["uid"] not in started_seen):
+                        return f"step {si}: {alive[0]} executed `activate {label}` and is still running but {label} has no running instance"
     return None
 
 
@@ -1195,7 +1436,7 @@ def signature(case, obs, msg):
         return "start-after-parent-ended"
     # an orphan (or a still-running activated flow) is attributed to the finding when it, or one of its ancestors,
     # was created by such a late StartFlow
-    if "is still running" in msg or "has a running activator" in msg or "running instances" in msg or "got no Stop" in msg:
+    if "is still running" in msg or "has a running activator" in msg or "running instances" in msg or "got no Stop" in msg or "still running (" in msg:
         parents = {}
         for s in obs.get("steps", []):
             for f in s.get("flows", []):
@@ -1258,6 +1499,14 @@ def tags(case, obs):
         t.append("conflict-cluster")
     if any("auto" in h for h in case.get("hist", [])):
         t.append("schedule-directed")
+    if any("tick" in h for h in case.get("hist", [])):
+        t.append("clock-tick")
+    if case.get("prog", {}).get("race"):
+        t.append("race:" + case["prog"]["race"]["form"])
+    if case.get("prog", {}).get("params"):
+        t.append("flow-parameter")
+    if any(r["op"] == "startflow" and r.get("res") and r["res"]["r"] == "ignored" and r["info"]["known"] for r in obs.get("records", [])):
+        t.append("startflow-of-ended-sender-dropped")
     t = sorted(set(t)) + ["flows:" + str(len(case.get("prog", {}).get("flows", {})))]
     shared = any(a["count"] >= 2 for s in obs.get("steps", []) for a in s.get("actions", []))
     if shared:
@@ -1274,6 +1523,8 @@ def shrink(case):
     flows = case["prog"]["flows"]
     for nm, body in flows.items():
         for i in range(len(body)):
+            if body[i][0] == "start_as":
+                continue   # its reference is matched later (`match $k.Finished()`): removing it alone changes the failure
             if len(body) > 1:
                 nb = body[:i] + body[i + 1:]
                 yield dict(case, prog=dict(case["prog"], flows=dict(flows, **{nm: nb})))
